@@ -178,6 +178,7 @@ def ucall(f, args, ret=None):
     for n in _bound_names(f["body"], set()):
         m[n] = ref(f"{n}_c{_SITE[0]}")
     return {"k": "ucall", "f": f["name"], "args": args, "ret": ret or "", "aw": f["async"], "body": _rename(f["body"], m)}
+def assume(c): return {"k": "assume", "c": c}                 # precondition in a reference description (prints nothing)
 def always_(n, e): return {"k": "always", "n": n, "e": e}      # n = cohdl.always(e)
 def local(n, ty, init, delayed=False): return {"k": "local", "n": n, "ty": ty, "init": init, "delayed": 1 if delayed else 0}
 def waitfor(n, allow_zero=False, via="std"):
@@ -321,6 +322,8 @@ class Printer:
                 out.append(f"{pad}{s['n']} = {self.expr(s['e'])}")
             elif k == "always":
                 out.append(f"{pad}{s['n']} = cohdl.always({self.expr(s['e'])})")
+            elif k == "assume":
+                out.append(f"{pad}pass  # assume {self.expr(s['c'])}")
             elif k == "if":
                 out.append(f"{pad}if {self.cond(s['c'])}:")
                 self.stmts(s["th"], ind + 1, out)
